@@ -32,7 +32,9 @@ CLAIMS = {
              "admitted orderings are exactly 0 <= idx < size (rejecting paths raise IndexError before any store; __setitem__ stores "
              "exactly for val in {0,1}); all accesses agree on byte idx//8 and mask 1<<(idx%8); set is old|m, clear is old&~m, read is "
              "(old&m)!=0; stored bytes stay in [0,255]; allocation is ceil(size/8) bytes; clear/as_string/num_bits_set cover the full "
-             "range. Does not decide non-integer arguments.",
+             "range through the guarded reader and return nothing but what is recomputed from the bits (no remembered count). Accesses "
+             "are compared in positional row form, so helper extraction, mask tables, divmod and |= spellings are the same program. "
+             "Does not decide non-integer arguments.",
         design_ref="DESIGN.md section 4 C20"),
     "C01": dict(
         technique="normal-form agreement of add/check address expressions, who-may-write effect analysis, path-shape rules on the expanding scan",
@@ -70,14 +72,16 @@ CLAIMS = {
         technique="path-shape rules (must-precede, exactly-once) and ordering-set judgement of the growth predicate under an inductive hypothesis",
         text="Structural part: on every path of ExpandingBloomFilter.add_alt the total is incremented exactly once, the key is "
              "inserted into the newest sub-filter exactly when force or not present, and the growth check runs once before the "
-             "insertion; the growth predicate admits growth only at count >= est and never leaves count = est without growth "
+             "insertion (judged on the whole paths of add_alt with the private growth helpers looked through, so the rule does not "
+             "depend on which helper holds the decision); the growth predicate admits growth only at count >= est and never leaves count = est without growth "
              "(judged by ordering sets under count <= est, so >=/==/not< pass and >, >= est-1 fail); growth appends one sub-filter "
              "built with the filter's own est_elements; a sub-filter counts one per add_alt. The closed form for the number of "
              "expansions is the arithmetic consequence.",
         design_ref="DESIGN.md section 4 C09, E8"),
     "C10": dict(
         technique="decision table over enumerated paths of the rotation with predicates judged by ordering sets; FIFO orientation rule",
-        text="Structural part: __rotate_bloom_filter appends exactly when force or ready; appends without room are preceded by "
+        text="Structural part (judged through the two callers add_alt and push with the private helpers looked through): the rotation "
+             "appends exactly when forced (push) or ready; appends without room are preceded by "
              "exactly one pop(0), appends with room by none, a pop is always followed by an append; only pop(0)/append touch the "
              "queue (FIFO); pop() refuses a single-element queue before mutating; push forces; add_alt counts every call, inserts "
              "exactly when force or not present and rotates first; max_queue_size is written only by the constructor. Bounded "
@@ -114,7 +118,8 @@ CLAIMS = {
         technique="normal-form comparison of emission lists, address functions, query formulas and hash kernels against the documented layout",
         text="Layout description only: footer formats, field order and sizes with cells first; Bloom bit addressing and array length; "
              "one uint32 cell per counting position; count-min cell formula and int32 cells; mean and mean-min query formulas incl. "
-             "the median rule; cuckoo buckets of bucket_size uint32 slots padded with 0; seeded FNV-1a 64/32 kernels and constants; "
+             "the median rule; the expanding filter's per-sub-filter record (uint64 count immediately followed by its bit array); "
+             "cuckoo buckets of bucket_size uint32 slots padded with 0; seeded FNV-1a 64/32 kernels and constants; "
              "the default hash strategy of each structure. The numbers are the specification quoted in the property. NOT decided: "
              "that a C compiler lays out the reference reader identically, or agreement of answers as such (the consequence).",
         design_ref="DESIGN.md section 4 C06"),
@@ -132,7 +137,8 @@ CLAIMS = {
         text="Ordering/provenance part only: on every path add_alt performs bit stores, counter, flush mapping, seek, 8-byte write, flush "
              "file in that order; close syncs before releasing; the rewritten bytes are exactly slot 1 of the footer (computed from the "
              "struct literals); after creation only OR-stores and that slot write touch the file; every public mutator of persisted state "
-             "reaches the sync; every path handed to open/copyfile/_load is the resolved path without lossy projection; reopening "
+             "reaches the sync; every path handed to open/copyfile/_load is the resolved path without lossy projection; no rename / "
+             "replace / unlink is reachable without a guard comparing the backing path with the resolved destination; reopening "
              "restores the count. NOT decided: crash atomicity of the 8-byte write, page-cache / msync behaviour (OS semantics).",
         design_ref="DESIGN.md section 4 C11"),
     "C03": dict(
@@ -165,7 +171,8 @@ CLAIMS = {
     "C15": dict(
         technique="guard dominance by ordering sets on every bucket-level append; candidate relation from the ownership analysis; who-may-write",
         text="Structural part: every append of an entry to a bucket is dominated by len(bucket) < bucket_size (or sits in a loader loop over "
-             "range(bucket_size)); every sink goes to a candidate bucket of the entry sunk and the eviction loop recomputes the next "
+             "range(bucket_size)); the candidate buckets are recomputed from the fingerprint and the current capacity only (no "
+             "remembered indices); every sink goes to a candidate bucket of the entry sunk and the eviction loop recomputes the next "
              "index from the entry now in hand; callers pass an entry with its own candidate indices; insertion only on the not-present "
              "branch; counting bins are never built with a possibly-zero count and a decrement is followed by the ==0 -> remove test; "
              "capacity is written only by constructor/loaders and as capacity * expansion_rate. Tables loaded from foreign files are "
@@ -177,7 +184,11 @@ CLAIMS = {
              "absent, reset with the arrays; (b) every index into the remainder array and the three bit vectors is in [0, size) on "
              "every path (masked / mod size / range(size) / 32-bit-hash quotient / guarded location / inductive loop variable; every "
              "call passes in-range index arguments); (c) _add is reached only under 'not contained'; (d) resize reads the hashes before "
-             "replacing the arrays and re-inserts all, merge re-inserts all. NOT decided - and this is the heart of the property: that "
+             "replacing the arrays and re-inserts all, merge re-inserts all; (e) four necessary conditions of the layout logic that are "
+             "visible in the shape of the code: a look-up reports a slot only inside the element's own run, removing a run's only "
+             "element clears its occupied bit, the bits of an inserted element follow their definitions (shifted iff slot != "
+             "quotient, continuation iff slot != run start, occupied[q] set), and hashes() starts its walk at an empty slot or, "
+             "failing that, a cluster start. NOT decided - and this is the heart of the property: that "
              "run/cluster shifting keeps the layout canonical for every neighbourhood shape, and termination (a throw-away probe does "
              "show IndexError/non-termination in _remove_element for some add/remove histories; no static rule here sees that).",
         design_ref="DESIGN.md section 4 C04"),
